@@ -129,7 +129,7 @@ func run(e *core.Env) {
 		w.S[i] = linkpair.NewStack(e, fmt.Sprintf("r%d", i), ids[i], st, false)
 	}
 	// Honest completion is demanded only where the statement implies it.
-	w.compat = uni[0] == uni[1] && sec[0] == sec[1] && (sec[0] == "" || uni[0] != "")
+	w.compat = uni[0] == uni[1] && sec[0] == sec[1] // (a secret is a valid setting in the default universe too)
 	for i := 0; i < 2; i++ {
 		// End i may register a link only if the universes match and, when it
 		// holds a secret, the peer holds the same one.
